@@ -12,6 +12,7 @@ from vt import sym
 from vt.props import C17, _pm
 
 ID = "C18"
+CROSSCHECK = 2  # thorough tier: obligations per case re-decided by the cvc5 binary
 LEVEL = "model_checking"
 TECHNIQUE = "bounded exhaustive exploration of event histories of the real ProcessManager.start with max_fails as an unconstrained z3 Int; budget obligations discharged by z3 per path"
 EXPLANATION = (
